@@ -77,6 +77,34 @@ def bin_fields(r, j, s, hs):
             "gxx": qc(gxx / s), "gyy": qc(gyy / s), "hn": qc(abs(r.Hxy[j]) / hs) if hs else 0}
 
 
+def error_ratios(r, j):
+    """The C10 identities as ratios that must equal 1 (ResultTrace.tla ErrorRatios); -1 where undefined (coherence 0,
+    coherence exactly 1 for the forms dividing by 1 - g2).  Valid for every coherence in (0, 1]."""
+    g2 = float(r.coh[j])
+    n = float(r.navg[j])
+    out = dict(om=-1, kxy=-1, khm=-1, kco=-1, rdxy=-1, rdh=-1, rdcoh=-1, pr=-1, rd=-1)
+    if not (g2 > 0):
+        return out
+    om = 1.0 - g2          # a coherence rounded above 1 (single-segment bins: 1 + 2e-16) is outside the textbook domain (0, 1]
+    out["om"] = qc(abs(om))
+
+    def div(a, b):
+        return qc(a / b) if b != 0 else CAP
+
+    exy, ehm, eco = float(r.Gxy_error[j]), float(r.Hxy_mag_error[j]), float(r.coh_error[j])
+    ehr, ehd = float(r.Hxy_rad_error[j]), float(r.Hxy_deg_error[j])
+    out["kxy"] = qc(exy * exy * g2 * n)
+    out["rdxy"] = div(float(r.Gxy_dev[j]), abs(r.Gxy[j]) * exy)
+    if om > 0:
+        out["khm"] = qc(ehm * ehm * 2.0 * g2 * n / om)
+        out["kco"] = qc(eco * eco * g2 * n / (2.0 * om * om))
+        out["rdh"] = div(float(r.Hxy_dev[j]), abs(r.Hxy[j]) * ehm)
+        out["rdcoh"] = div(float(r.coh_dev[j]), g2 * eco)
+        out["pr"] = div(ehr, ehm)
+        out["rd"] = div(ehd * math.pi, 180.0 * ehr)
+    return out
+
+
 def record_analysis(spec):
     """Reference two-channel analysis + variants.  Runs in a worker."""
     x, y = make_record(spec)
@@ -104,6 +132,7 @@ def record_analysis(spec):
                      ehm=er(ref.Hxy_mag_error[j]), dh=er(ref.Hxy_dev[j] / abs(ref.Hxy[j]) if abs(ref.Hxy[j]) else 0),
                      ecoh=er(ref.coh_error[j]), dcoh=er(ref.coh_dev[j] / coh if coh else 0),
                      ehr=er(ref.Hxy_rad_error[j]), ehd=er(ref.Hxy_deg_error[j]))
+            e.update(error_ratios(ref, j))
             den = float(XX[j] * YY[j])
             e.update(m2=qc(float(ref.XY_M2[j]) / den) if den else 0, ev=qc(float(ref.XY_emp_var[j]) / den) if den else 0,
                      ed=qc(float(ref.Gxy_emp_dev[j]) / math.sqrt(float(ref.Gxx[j] * ref.Gyy[j]))) if den else 0,
@@ -260,6 +289,27 @@ def record_analysis(spec):
                     r = speckit.compute_single_bin(np.vstack([x, y]), fs, fq, L=L, olap=ol, win="hann", order=spec["order"], backend=spec["backend"])
                     ev.append({"t": "single", "n": int(r.navg[0]), "K": int(r.K[0]), "nD": int(len(r.D[0])), "exx": qc(float(r.Gxx_error[0]), 4096),
                                "dxx": qc(float(r.Gxx_dev[0] / r.Gxx[0]), 4096) if r.Gxx[0] else 0})
+            elif kind == "beat":
+                # two oscillators beating by exactly one cycle over the record: strong lines in the analysed bin of every segment,
+                # relative phase advancing by 2 pi/n per segment -> the averaged cross spectrum cancels to rounding level and the
+                # coherence is tiny (1e-30) but strictly positive; every error bar must still be its textbook function
+                import speckit
+                for nseg in (8, 16, 25):
+                    Lb = 1000
+                    Nb = nseg * Lb
+                    tt = np.arange(Nb) / fs
+                    f0 = 64.0 * fs / Lb
+                    xb = np.cos(2 * np.pi * f0 * tt)
+                    yb = 0.7 * np.cos(2 * np.pi * (f0 + fs / Nb) * tt + 0.3)
+                    r = speckit.compute_single_bin(np.vstack([xb, yb]), fs, f0, L=Lb, olap=0.0, win="hann", order=spec["order"], backend=spec["backend"])
+                    ev.append({"t": "errs", "n": int(r.navg[0]), "nD": int(len(r.D[0])), "tiny": int(0 < float(r.coh[0]) < 1e-16), **error_ratios(r, 0)})
+            elif kind == "nearunity":
+                # proportional channels with a noise floor 1e-6 .. 1e-5 below: 1 - coherence ~ 1e-13 .. 1e-10
+                rngn = np.random.default_rng(spec["seed"] + 31)
+                for lvl in (1e-6, 1e-5):
+                    r = analyze(np.vstack([x, 1.5 * x + lvl * rngn.standard_normal(spec["N"])]), fs, spec)
+                    for j in ([0, r.nf // 3, r.nf // 2, r.nf - 1] if r.nf > 4 else range(r.nf)):
+                        ev.append({"t": "errs", "n": int(r.navg[j]), "nD": int(len(r.D[j])), "tiny": 0, **error_ratios(r, j)})
             elif kind == "gain":
                 g = var[1]
                 r = analyze(np.vstack([x, g * x]), fs, spec)
